@@ -15,10 +15,8 @@ CONSTANTS
   RecvConn = 1048576
   Reaper = TRUE
   Legal = FALSE
+  BurstMin = 2500
   Deviations = {}
 CONSTRAINT Track
-INVARIANTS P_C14_Windows P_C14_NewStreamWindow P_C14_FrameSize P_C14_MaxStreams P_C14_StreamIds P_C14_Hpack P_C14_OwnWindows P_C14_Progress T_Conforms
-PROPERTIES P_C14_WindowSteps P_C14_StreamStates
 POSTCONDITION TraceAccepted
-ALIAS TraceAlias
 CHECK_DEADLOCK FALSE
